@@ -7,6 +7,8 @@ VARIABLES v
 Init == \E k \in (Lo \div Step)..(Hi \div Step), d \in -2..2 : v = k * Step + d /\ v >= Lo /\ v <= Hi
 Next == UNCHANGED v
 Spec == Init /\ [][Next]_v
+\* the split-first-group form of the signed count is the plain zig-zag varint wherever the latter is computable
+ASSUME SignedAgree
 
 RoundTrip(enc, dec) == dec.ok /\ dec.v = v /\ dec.p = Len(enc) + 1
 \* trailing bytes do not disturb decoding, and decoding from an offset works
